@@ -25,7 +25,8 @@ fn offered(kind: i64, private: bool, alg: i64, secret: i64, d_ok: bool) -> Jwk {
     _ => json!({"kty": "oct", "k": "AAAA"}),
   };
   if private && kind != 4 { v["d"] = json!(if d_ok { b64(&pool_secret(j)) } else { "AAAA".to_string() }); }
-  match alg { 0 => v["alg"] = json!("EdDSA"), 1 => v["alg"] = json!("ES256"), 2 => v["alg"] = json!("Ed25519Signature"), _ => {} }
+  // 2..7: names that are not JWS algorithms (spellings of EdDSA in another case, padded, empty included)
+  match alg { 0 => v["alg"] = json!("EdDSA"), 1 => v["alg"] = json!("ES256"), 2 => v["alg"] = json!("Ed25519Signature"), 3 => v["alg"] = json!("eddsa"), 4 => v["alg"] = json!("EDDSA"), 5 => v["alg"] = json!(""), 6 => v["alg"] = json!("EdDSA "), 7 => v["alg"] = json!("Eddsa"), _ => {} }
   serde_json::from_value(v).unwrap()
 }
 fn kerr(k: &KeyStorageErrorKind) -> i64 { match k { KeyStorageErrorKind::UnsupportedKeyType => 1, KeyStorageErrorKind::KeyAlgorithmMismatch => 2, KeyStorageErrorKind::UnsupportedSignatureAlgorithm => 3, KeyStorageErrorKind::Unspecified => 4, KeyStorageErrorKind::KeyNotFound => 5, _ => 9 } }
@@ -130,14 +131,16 @@ pub fn exec(case: &[i64]) -> Outcome {
 }
 
 pub fn gen(rng: &mut Rng, thorough: bool, sink: &mut Sink) {
+  // every alg spelling on a fully private Ed25519 key offered for insertion, and on the public key handed to sign
+  for alg in -1..=7i64 { sink.case(vec![1, 3, 1, 0, 1, alg, 1000, 1, 0, 0, 1, 2, 0, 0, alg], "alg-table"); }
   for _ in 0..(if thorough { 3000 } else { 400 }) {
     let len = rng.range(1, if thorough { 60 } else { 30 }); let mut c = vec![1, len]; let mut created = 0i64;
     for _ in 0..len {
       match rng.below(10) {
         0 | 1 => { let k = if rng.chance(3, 4) { 0 } else { rng.range(1, 2) }; let e = rng.chance(5, 6) as i64; c.extend([0, k, e]); if k == 0 && e == 1 { created += 1; } }
-        2 | 3 => { let good = rng.chance(1, 2); let (kind, private, alg) = if good { (0, 1, 0) } else { (*rng.pick(&[0i64, 0, 1, 2, 3, 4]), rng.chance(2, 3) as i64, rng.range(-1, 2)) }; let d_ok = rng.chance(7, 8) as i64;
+        2 | 3 => { let good = rng.chance(1, 2); let (kind, private, alg) = if good { (0, 1, 0) } else { (*rng.pick(&[0i64, 0, 1, 2, 3, 4]), rng.chance(2, 3) as i64, rng.range(-1, 7)) }; let d_ok = rng.chance(7, 8) as i64;
                    c.extend([1, kind, private, alg, 1000 + rng.range(0, 5), d_ok]); if kind == 0 && private == 1 && alg == 0 { created += 1; } }
-        4 | 5 | 6 => { let i = if rng.chance(5, 6) && created > 0 { rng.range(0, created - 1) } else { created + rng.range(0, 3) }; let (pk, pa) = if rng.chance(3, 4) { (0, 0) } else { (rng.range(0, 4), rng.range(-1, 2)) }; c.extend([2, i, pk, pa]); }
+        4 | 5 | 6 => { let i = if rng.chance(5, 6) && created > 0 { rng.range(0, created - 1) } else { created + rng.range(0, 3) }; let (pk, pa) = if rng.chance(3, 4) { (0, 0) } else { (rng.range(0, 4), rng.range(-1, 7)) }; c.extend([2, i, pk, pa]); }
         7 => { let i = if rng.chance(4, 5) && created > 0 { rng.range(0, created - 1) } else { created + rng.range(0, 3) }; c.extend([3, i]); }
         _ => { let i = if rng.chance(3, 4) && created > 0 { rng.range(0, created - 1) } else { created + rng.range(0, 3) }; c.extend([4, i]); }
       }
